@@ -450,6 +450,9 @@ def tlv_scenarios(prog, chk, pid, tier):
     # assignments of empty content (0 bytes is a legal content) next to deletions that sort after them
     dicts.append([((0x0101, 1), 0), ((0x0300, 2), None), ((0x0050, 7), 3), ((0x0400, None), None)])
     dicts.append([((0x0200, 5), 0), ((0x0200, 6), 0), ((0x0200, 7), None)])
+    # the ends of the value-id range: 0 (falsy) and 0xFE, set and deleted, each followed by further entries of the same and of another key
+    dicts.append([((0x0101, 0), 4), ((0x0101, 1), 3), ((0x0102, 0), 2), ((0x0102, 0xFE), 1)])
+    dicts.append([((0x0200, 0), None), ((0x0200, 3), None), ((0x0300, 0), 5), ((0x0300, 0xFE), None), ((0x0000, 0), 1), ((0x0000, 1), 0)])
     dicts.append([((0x0400 + i, 1), 30) for i in range(9)])
     dicts.append([((0x0500, i), 11) for i in range(1, 30)])
     if tier == "thorough":
